@@ -1,4 +1,4 @@
-import LanceModel.C04.HistLemmas
+import LanceModel.C04.ColsLemmas
 /-!
 # C04 — no lost updates: two committed transactions never both modify the same row
 
@@ -18,6 +18,11 @@ rows visible at `r` (deletes them; an update / upsert writes their new images in
 writers, so every theorem below applies to them — and to any other writer that builds its Delete / Update operation by
 extending the deletion vectors of the version it read (`FileFragment::delete` + `CommitBuilder`, with or without
 `affected_rows`).
+
+The second update mode (Update / RewriteColumns: a partial-schema merge_insert rewrites the matched rows IN PLACE and passes
+no `affected_rows`) is `mkMergeCols` / `WellBuiltCols`: `cols_isolated` shows such a transaction commits only if none of its
+fragments was touched since its read version, and a committed one makes every stale row-level transaction on its
+fragments fail (`check_txn`: "data files, not just deletion files, are modified").
 
 `Db.Inv` (CommitLemmas.lean) is the history invariant: every version is well formed and is `build_manifest` of its
 predecessor and the recorded transaction.  `Reach` below generates all histories: ANY number of row-modifying transactions,
@@ -183,15 +188,19 @@ inductive Eff where
   | txn (A : List Addr) (frag n : Nat)
   /-- a compaction: every visible row moves into the new fragment `frag` (`n` rows) -/
   | moveTo (frag n : Nat)
+  /-- a committed column rewrite (Update / RewriteColumns): rows change in place, `n` new rows go into fragment `frag` -/
+  | cols (frag n : Nat)
 
 def Eff.killed : Eff → List Addr
   | .txn A _ _ => A
   | .moveTo _ _ => []
+  | .cols _ _ => []
 
 /-- serial application of an effect to a set of visible rows -/
 def Eff.apply (live : Addr → Prop) : Eff → Addr → Prop
   | .txn A m n => fun a => (live a ∧ a ∉ A) ∨ (a.1 = m ∧ a.2 < n)
   | .moveTo m n => fun a => a.1 = m ∧ a.2 < n
+  | .cols m n => fun a => live a ∨ (a.1 = m ∧ a.2 < n)
 
 /-- All histories: starting from any well-formed table, any number of times either a Delete / Update transaction that some
     writer built at ANY version `r` (stale or not) is committed — with or without `affected_rows` — or the latest version
@@ -206,6 +215,10 @@ inductive Reach (t0 : Table) : Db → List Eff → Prop
   | compact {db : Db} {effs : List Eff} :
       Reach t0 db effs → compactNeeded db.latest = true →
       Reach t0 (LanceModel.C04.compact db) (effs ++ [.moveTo db.latest.maxFrag db.latest.scan.length])
+  | commitCols {db db' : Db} {effs : List Eff} (r : Nat) (T : Txn) (tok : Nat) :
+      Reach t0 db effs → WellBuiltCols (db.tableAt r) T →
+      LanceModel.C04.commit db r T none tok = .ok db' →
+      Reach t0 db' (effs ++ [.cols db.latest.maxFrag T.newRows.length])
 
 theorem reach_inv {t0 : Table} {db : Db} {effs : List Eff} (h : Reach t0 db effs) : db.Inv ∧ db.base = t0 := by
   induction h with
@@ -218,6 +231,9 @@ theorem reach_inv {t0 : Table} {db : Db} {effs : List Eff} (h : Reach t0 db effs
     rw [← ih.2]
     unfold LanceModel.C04.compact
     cases compactNeeded _ <;> rfl
+  | commitCols r T tok _ hb hc ih =>
+    obtain ⟨h1, h2, _⟩ := cols_commit_effect ih.1 hb hc
+    exact ⟨h1, h2.trans ih.2⟩
 
 /-- NO RESURRECTION, for every history: a row killed by ANY committed transaction is invisible in the latest version — and
     stays so, whatever commits or compactions follow (fragment ids are never reused). -/
@@ -260,6 +276,21 @@ theorem rounds_no_resurrection {t0 : Table} {db : Db} {effs : List Eff} (h : Rea
     · subst hmem
       change a ∈ [] at ha
       cases ha
+  | @commitCols db db' effs r T tok hreach hb hc ih =>
+    have hinv := (reach_inv hreach).1
+    obtain ⟨_, _, _, _, _, he, hm⟩ := cols_commit_effect hinv hb hc
+    intro e hmem a ha
+    simp only [List.mem_append, List.mem_singleton] at hmem
+    rcases hmem with hmem | hmem
+    · obtain ⟨h1, h2⟩ := ih e hmem a ha
+      refine ⟨?_, by omega⟩
+      intro hlive
+      rcases (he a).mp hlive with h | ⟨h, _⟩
+      · exact h1 h
+      · omega
+    · subst hmem
+      change a ∈ [] at ha
+      cases ha
 
 /-- BOTH COMMIT ⇒ DISJOINT, for every history: the sets of rows killed by the committed transactions are pairwise
     disjoint, however many transactions there are, whatever versions they were built at and in whatever order they
@@ -281,6 +312,14 @@ theorem rounds_disjoint {t0 : Table} {db : Db} {effs : List Eff} (h : Reach t0 d
     obtain ⟨e, he, rfl⟩ := hA0
     exact (rounds_no_resurrection hreach e he a ha0).1 (hl a haB)
   | @compact db effs hreach hn ih =>
+    rw [List.map_append, List.pairwise_append]
+    refine ⟨ih, by simp, ?_⟩
+    intro A0 _ B hB a _ haB
+    simp only [List.map_cons, List.map_nil, List.mem_singleton] at hB
+    subst hB
+    change a ∈ [] at haB
+    cases haB
+  | @commitCols db db' effs r T tok hreach hb hc ih =>
     rw [List.map_append, List.pairwise_append]
     refine ⟨ih, by simp, ?_⟩
     intro A0 _ B hB a _ haB
@@ -333,6 +372,13 @@ theorem rounds_serial {t0 : Table} {db : Db} {effs : List Eff} (h : Reach t0 db 
         | cons x xs => rfl
       refine ⟨⟨db.latest.maxFrag, 1, db.latest.scan, [], none⟩, ?_, h2, by simp⟩
       rw [compact_get hinv hn, if_pos ⟨hne, h1.symm⟩]
+  | @commitCols db db' effs r T tok hreach hb hc ih =>
+    have hinv := (reach_inv hreach).1
+    obtain ⟨_, _, _, _, _, he, _⟩ := cols_commit_effect hinv hb hc
+    intro a
+    rw [List.foldl_append, he a]
+    simp only [List.foldl_cons, List.foldl_nil, Eff.apply]
+    rw [ih a]
 
 /-! ## The property, in full -/
 
@@ -361,10 +407,25 @@ theorem C04_holds : C04_full := by
   intro r T A aff tok hb haff
   exact ⟨fun e he => conflict_is_retryable hinv he, overlap_conflicts hinv hb haff⟩
 
+/-- ISOLATION OF A COLUMN REWRITE (the second update mode, no affected rows).  A committed Update / RewriteColumns found
+    every fragment it rewrites exactly as it was at its read version: no transaction committed in between deleted, updated
+    or moved a row of those fragments - so in particular no row is modified by it and by a concurrent transaction. -/
+theorem cols_isolated {db db' : Db} {r : Nat} {T : Txn} {tok : Nat}
+    (hinv : db.Inv) (hb : WellBuiltCols (db.tableAt r) T) (hc : commit db r T none tok = .ok db') :
+    (∀ u ∈ T.updated, db.latest.get u.id = (db.tableAt r).get u.id) ∧
+    (∀ u ∈ T.updated, db'.latest.get u.id = some u) ∧
+    (∀ i, (∀ u ∈ T.updated, u.id ≠ i) → i ≠ db.latest.maxFrag → db'.latest.get i = db.latest.get i) := by
+  obtain ⟨_, _, h1, h2, h3, _⟩ := cols_commit_effect hinv hb hc
+  exact ⟨h1, h2, h3⟩
+
+/-- the partial-schema upsert builds such a transaction -/
+theorem cols_writer_well_built {t : Table} (hw : t.WF) (src : List Row) : WellBuiltCols t (mk t (.pmrg src) 0).1 :=
+  wellBuiltCols_mk hw src
+
 /-- the three writers build well-built transactions, so `Reach.commit` covers `DeleteBuilder`, `UpdateBuilder` and the
     full-schema upsert of `MergeInsertBuilder` -/
-theorem writers_well_built {t : Table} (hw : t.WF) (op : OpKind) (tok : Nat) :
-    WellBuilt t (mk t op tok).1 (mk t op tok).2 := wellBuilt_mk hw op tok
+theorem writers_well_built {t : Table} (hw : t.WF) (op : OpKind) (hop : op.movesRows = true) (tok : Nat) :
+    WellBuilt t (mk t op tok).1 (mk t op tok).2 := wellBuilt_mk hw op hop tok
 
 /-! ## Non-vacuity: concrete histories (two fragments of three rows, keys 1..6) -/
 
@@ -431,6 +492,17 @@ example :
                    | .ok _ => none)
      | .error _ => none) = some .retryable := by decide
 
+/-- a column rewrite (partial-schema upsert) of a fragment in which a row was deleted since its read version conflicts;
+    on another fragment it commits and changes the rows in place -/
+example :
+    (match runOp exDb 1 (.del [1]) true false 1 with
+     | .ok db1 => (match runOp db1 1 (.pmrg [⟨2, 92⟩]) false false 5, runOp db1 1 (.pmrg [⟨5, 95⟩, ⟨7, 97⟩]) false false 5 with
+                   | .error e, .ok db2 =>
+                     some (e, db2.latest.frags.map (fun f => (f.id, f.files)), db2.latest.scan.map (fun r => (r.key, r.v)))
+                   | _, _ => none)
+     | .error _ => none)
+    = some (.retryable, [(0, 1), (1, 2), (2, 1)], [(2, 12), (3, 13), (4, 14), (5, 95), (6, 16), (7, 97)]) := by decide
+
 /-- the first committed version of the example history: key 1 deleted -/
 def exDb1 : Db :=
   match commit exDb 1 (mk (exDb.tableAt 1) (.del [1]) 1).1 (some (mk (exDb.tableAt 1) (.del [1]) 1).2) 2 with
@@ -453,10 +525,10 @@ theorem exCommit2 :
 
 /-- the hypotheses of the theorems are satisfiable: a history with a stale, well-built transaction that commits -/
 theorem exReach : ∃ effs, Reach exBase exDb2 effs ∧ effs.map Eff.killed = [[(0, 0)], [(0, 1)]] := by
-  have hb1 := wellBuilt_mk (show (exDb.tableAt 1).WF from exBase_wf) (.del [1]) 1
+  have hb1 := wellBuilt_mk (show (exDb.tableAt 1).WF from exBase_wf) (.del [1]) rfl 1
   have r1 := Reach.commit 1 _ _ _ 2 (Reach.init exBase_wf) hb1 (.inl rfl) exCommit1
   have hw1 : (exDb1.tableAt 1).WF := (inv_split (reach_inv r1).1 1).2.2
-  have hb2 := wellBuilt_mk hw1 (.upd [2]) 9
+  have hb2 := wellBuilt_mk hw1 (.upd [2]) rfl 9
   have r2 := Reach.commit 1 _ _ _ 10 r1 hb2 (.inl rfl) exCommit2
   exact ⟨_, r2, by decide⟩
 
